@@ -31,6 +31,9 @@ type Case struct {
 	Respect bool     `json:"respect"` // abstract fields only resolve to objects of types visible under F
 	Seed    uint64   `json:"world_seed"`
 	Doc     *Doc     `json:"doc,omitempty"`
+	// Via "api": the case only fails through apifu.API (ServeGraphQL / graphql-ws), i.e. in the
+	// plumbing of the request's feature set, not in graphql.Execute.
+	Via string `json:"via,omitempty"`
 }
 
 type harness struct {
@@ -81,6 +84,10 @@ type pairEnv struct {
 	erased   *built
 	erasedW  *world
 	erasedSp *Spec
+	// the erased schema with every requirement removed, queried with NO features: a reference that
+	// does not go through any feature test at all
+	plain  *built
+	plainW *world
 }
 
 func newPairEnv(spec *Spec, F []string) (*pairEnv, error) {
@@ -96,16 +103,29 @@ func newPairEnv(spec *Spec, F []string) (*pairEnv, error) {
 	if e.erased, err = buildSchema(e.erasedSp, e.erasedW); err != nil {
 		return e, fmt.Errorf("erase(S,F): %w", err)
 	}
+	e.plainW = &world{orig: e.origX, F: Fm}
+	if e.plain, err = buildSchema(stripReq(e.erasedSp), e.plainW); err != nil {
+		return e, fmt.Errorf("erase(S,F) without requirements: %w", err)
+	}
 	return e, nil
 }
 
 // differential evaluates the property on one query. It returns "" when it holds.
 func (e *pairEnv) differential(q *query, respect bool, seed uint64) (what string, a, b outcome) {
-	for _, w := range []*world{e.fullW, e.erasedW} {
+	for _, w := range []*world{e.fullW, e.erasedW, e.plainW} {
 		w.respect, w.seed = respect, seed
 	}
 	a = runQuery(e.full, e.fullW, e.F, q)
 	b = runQuery(e.erased, e.erasedW, e.all, q)
+	if what, a, b = e.compare(q, a, b, e.erased, e.erasedW, e.all, "erased schema"); what != "" {
+		return what, a, b
+	}
+	c := runQuery(e.plain, e.plainW, nil, q)
+	what, a, _ = e.compare(q, a, c, e.plain, e.plainW, nil, "erased schema without requirements, no features")
+	return what, a, b
+}
+
+func (e *pairEnv) compare(q *query, a, b outcome, ref *built, refW *world, refF []string, refName string) (what string, _, _ outcome) {
 	if a.Panic != "" || b.Panic != "" {
 		if a.Panic != b.Panic {
 			return fmt.Sprintf("panic differs: under F %q, erased %q", a.Panic, b.Panic), a, b
@@ -120,15 +140,15 @@ func (e *pairEnv) differential(q *query, respect bool, seed uint64) (what string
 		// argument coercion): only call it a difference when it is stable.
 		for i := 0; i < 6; i++ {
 			a2 := runQuery(e.full, e.fullW, e.F, q)
-			b2 := runQuery(e.erased, e.erasedW, e.all, q)
+			b2 := runQuery(ref, refW, refF, q)
 			if a2.Resp == b.Resp || b2.Resp == a.Resp || a2.Resp == b2.Resp {
 				return "", a, b
 			}
 		}
-		return fmt.Sprintf("response differs: under F=%v %s ; erased schema %s", e.F, clip(a.Resp), clip(b.Resp)), a, b
+		return fmt.Sprintf("response differs: under F=%v %s ; %s %s", e.F, clip(a.Resp), refName, clip(b.Resp)), a, b
 	}
 	if strings.Join(a.Log, ",") != strings.Join(b.Log, ",") {
-		return fmt.Sprintf("resolver call log differs: under F %v ; erased %v", a.Log, b.Log), a, b
+		return fmt.Sprintf("resolver call log differs: under F %v ; %s %v", a.Log, refName, b.Log), a, b
 	}
 	return "", a, b
 }
@@ -140,9 +160,44 @@ func clip(s string) string {
 	return s
 }
 
+const keyGatedRoot = "F-13f-gated-root-operation-type"
+
 // classify attaches a finding key to a failing case (narrow predicates; "" = unknown failure).
+//
+// F-13f: the schema's mutation root type itself carries required features that F does not enable,
+// the request is a mutation or asks for `mutationType`, the two responses differ — and the
+// counterfactual holds: the very same case with the requirement taken off the root type (nothing
+// else changed) does not fail. A failure that survives the counterfactual is a different failure.
 func classify(c *Case, what string) string {
-	return ""
+	if c.Spec == nil || c.Spec.Mutation == "" || c.Via != "" {
+		return ""
+	}
+	m := c.Spec.find(c.Spec.Mutation)
+	if m == nil || subset(m.Req, fset(c.F)) {
+		return ""
+	}
+	text := c.Query.Text
+	if c.Doc != nil {
+		text = c.Doc.text()
+	}
+	what = strings.TrimPrefix(what, "corpus case ")
+	if i := strings.Index(what, ".json: "); i > 0 && strings.HasPrefix(what, "/") {
+		what = what[i+7:]
+	}
+	isMutation := strings.HasPrefix(strings.TrimSpace(text), "mutation")
+	switch {
+	case strings.HasPrefix(what, "response differs") && (isMutation || strings.Contains(text, "mutationType")):
+	case strings.HasPrefix(what, "gated resolver invoked") && isMutation:
+	default:
+		return ""
+	}
+	cf := *c
+	cf.Spec = c.Spec.clone()
+	cf.Spec.find(cf.Spec.Mutation).Req = nil
+	if failsSame(&cf) != "" {
+		return ""
+	}
+	return keyGatedRoot
 }
 
 func subsets(fs []string) [][]string {
@@ -690,6 +745,9 @@ func (h *harness) replayCase(c *Case, verbose bool) (what string) {
 		}
 		return ""
 	}
+	if c.Via == "api" {
+		return h.replayAPI(c, verbose)
+	}
 	env, err := newPairEnv(c.Spec, c.F)
 	if err != nil {
 		return "cannot build: " + err.Error()
@@ -703,6 +761,54 @@ func (h *harness) replayCase(c *Case, verbose bool) (what string) {
 		fmt.Printf("oracle: %q\n", w)
 	}
 	return w
+}
+
+func (h *harness) replayAPI(c *Case, verbose bool) string {
+	origX := expand(c.Spec)
+	Fm := fset(c.F)
+	fw := &world{orig: origX, F: Fm, respect: c.Respect, seed: c.Seed}
+	ew := &world{orig: origX, F: Fm, respect: c.Respect, seed: c.Seed}
+	full, err := buildAPI(c.Spec, fw)
+	if err != nil {
+		return "cannot mount S: " + err.Error()
+	}
+	erased, err := buildAPI(stripReq(eraseSpec(c.Spec, Fm)), ew)
+	if err != nil {
+		return "cannot mount erase(S,F): " + err.Error()
+	}
+	q := c.Query
+	var all []string
+	a := serveHTTP(full, fw, c.F, &q)
+	b := serveHTTP(erased, ew, all, &q)
+	what := compareOutcomes(origX, c.F, a, b)
+	if verbose {
+		fmt.Printf("schema:\n%s\nfeatures: %v\nquery: %s\n", canonSpec(origX), c.F, q.Text)
+		fmt.Printf("HTTP response(S, F, q)            = %s log=%v\n", a.Resp, a.Log)
+		fmt.Printf("HTTP response(erase(S,F), all, q) = %s log=%v\n", b.Resp, b.Log)
+	}
+	if what != "" {
+		return "API/HTTP: " + what
+	}
+	wsA, err := dialWS(full, c.F)
+	if err != nil {
+		return ""
+	}
+	defer wsA.close()
+	wsB, err := dialWS(erased, all)
+	if err != nil {
+		return ""
+	}
+	defer wsB.close()
+	a = wsA.run(fw, &q)
+	b = wsB.run(ew, &q)
+	if verbose {
+		fmt.Printf("WS   response(S, F, q)            = %s log=%v\n", a.Resp, a.Log)
+		fmt.Printf("WS   response(erase(S,F), all, q) = %s log=%v\n", b.Resp, b.Log)
+	}
+	if what := compareOutcomes(origX, c.F, a, b); what != "" {
+		return "API/WS: " + what
+	}
+	return ""
 }
 
 func main() {
@@ -761,8 +867,42 @@ func main() {
 		spec := genSpec(r)
 		h.checkSpec(spec, r, nDocs, i < 40)
 	}
-	b, _ := json.Marshal(sortedKeys(map[string]int{}))
-	_ = b
+	// the same property through the application layer (feature-set plumbing of api.go / graphqlws.go)
+	nAPI, nWS := run.Scale(30, 300), run.Scale(6, 40)
+	for i, tries := 0, 0; i < nAPI && tries < nAPI*30; tries++ {
+		r := run.Rand.Fork()
+		spec := genSpec(r)
+		if !apiCompatible(spec) {
+			continue
+		}
+		if _, err := buildSchema(spec, &world{orig: expand(spec), F: map[string]bool{}}); err != nil {
+			continue
+		}
+		origX := expand(spec)
+		allF := fset(spec.features())
+		qs := func(F []string) []query {
+			out := []query{{Kind: "probe", Label: "schema-types", Text: schemaProbe}, {Kind: "probe", Label: "full-introspection", Text: string(introspectionQueryText)}}
+			for _, t := range origX.Types {
+				if len(t.Req) > 0 {
+					out = append(out, query{Kind: "probe", Label: "type:" + t.Name, Text: typeProbe(t.Name)})
+					break
+				}
+			}
+			for j := 0; j < 6; j++ {
+				G := allF
+				if j%2 == 0 {
+					G = fset(F)
+				}
+				d := genDoc(r.Fork(), origX, G)
+				out = append(out, query{Kind: "doc", Label: "doc", Text: d.text(), Vars: d.Vals, doc: d})
+			}
+			return out
+		}
+		if h.checkAPI(spec, r, qs, i < nWS) {
+			i++
+			run.Count("api:schemas")
+		}
+	}
 	run.Finish(h.model)
 }
 
